@@ -930,7 +930,7 @@ func run(c *vf.Ctx) {
 	c.Assume("hangs: a case of an enumeration family (normal duration < 1 ms) that has used 6 s of CPU time without finishing, or has been blocked for 100 s using no CPU, is re-run against the plain binary, which must still be running after 8 s of CPU time; the pool's 120 s stall detector (3 isolated re-runs) is the backstop; output beyond 4 MiB for an input of a few bytes counts as an endless loop when the binary does the same. Wall-clock slowness alone is never a verdict; ladders stop ascending when a rung exceeds the tier's CPU/allocation budget (recorded as not exhaustive)")
 	c.Assume("a case that kills its worker (fatal error, hang) is reported; after two such cases of one function/configuration, further cases that agree with them in the argument positions they share are skipped and counted (poison rule), so that one defect cannot cost hours")
 	c.Assume("goroutines abandoned by a failing in-process run may still execute during the next case; a settle run after each such case and the plain-binary confirmation of every violation class guard against misattribution; a crash masked by such interference would be missed")
-	c.Assume("functions excluded (host facts, shell-outs, clocks, unseeded randomness): system exec os hostname version urand urand32 urandint urandrange urandelement systime systimeint sysntime uptime upntime; statements with output redirection are excluded (they create files)")
+	c.Assume("functions excluded (host facts, shell-outs, clocks, unseeded randomness): system os hostname version urand urand32 urandint urandrange urandelement systime systimeint sysntime uptime upntime; statements with output redirection are excluded (they create files); exec IS included: its command argument is a witness value, none of which names an executable other than `true`")
 	c.Assume("the deliberate test token %%%panic%%% of the DSL grammar (panics by design when evaluated) is not part of the token alphabets")
 	c.Assume("reader formats asv/usv (csvlite with other separators), gen (no input bytes) and the --prepipe family (shell-outs) are not enumerated")
 
